@@ -105,6 +105,11 @@ def run(repo, rep, tier):
               "split-parts-steps"), minimum=3)
     # the expression layer rejects what is invalid and nothing else, and cuts
     # its error tokens out of the text by one group (C04 owns these details)
+    # what is a comment, a tag, a declaration -- and so which errors are
+    # raised for a token -- is decided by identify() (C03 owns the parser details)
+    from . import c03 as _c03
+    L.borrow(repo, rep, "R11.5", "C03", _c03.parser_details,
+             ("identify-ends", "tag-space"))
     from . import c04 as _c04
     L.borrow(repo, rep, "R11.5", "C04", _c04.tales_details,
              ("no-input-guard", "stripped-both-sides", "slice-one-group", "tales-space", "prefix-width"), minimum=2)
